@@ -7,6 +7,7 @@ cd "$(dirname "$0")"
 export CARGO_NET_OFFLINE=true
 python3 tools/translate.py || echo "translate: some tables untranslatable (checks will report)"
 python3 tools/t12.py || echo "t12: some parser functions untranslatable (checks will report)"
+python3 tools/t13.py || echo "t13: some serializer functions untranslatable (checks will report)"
 python3 - <<'PY'
 import sys
 sys.path.insert(0, "tools")
